@@ -81,6 +81,11 @@ def stepOp : List String → Option String
   | ["fromhex", s] => do
     let inp ← unhexTok s
     pure (fromHexOut (fromHex inp))
+  | ["fromhexre", s1, s2] => do
+    -- an argument that shows s1 at the first `as_ref()` and s2 afterwards: the code looks once
+    let inp ← unhexTok s1
+    let _ ← unhexTok s2
+    pure (fromHexOut (fromHex inp))
   | ["fromstr", s] => do
     let inp ← unhexTok s
     -- the real driver refuses (bad-op) input that is not UTF-8: a `&str` cannot hold it
